@@ -121,8 +121,80 @@ def image_case(src, asan, idx, seed, tier):
     return {"kind": "image", "base": name, "mke2fs": opts, "operators": desc, "case_index": idx}, bad, nrun
 
 
+FC_VARIANTS = ["pad_len_huge", "tag_at_block_end", "add_range_short", "inode_len_huge", "header_cut", "random_tags"]
+
+
+def fast_commit_case(src, asan, idx, seed, tier):
+    """a fast-commit area whose first block holds a valid head tag followed by tags with lengths that do not fit the block
+    (or their own structure): the scan has to stay inside the block buffer"""
+    r = e2v.rng(seed, "c06fc", idx)
+    which = FC_VARIANTS[(idx // 8) % len(FC_VARIANTS)]
+    bname, opts, size = [("fc4k", ["-t", "ext4", "-b", "4096", "-O", "fast_commit", "-J", "size=4"], "64M"),
+                         ("fc1k", ["-t", "ext4", "-b", "1024", "-O", "fast_commit,^metadata_csum", "-J", "size=4"], "32M")][(idx // 8) % 2]
+    jimg = c03.JImage(c03.base_image(src, bname, opts, size))
+    fs, bs = jimg.fs, jimg.fs.bs
+    d = bytearray(open(jimg.path, "rb").read())
+    jsb = bytearray(jimg.jsb)
+    num_fc = struct.unpack_from(">I", jsb, 0x54)[0] or 256
+    seq = r.choice([7, 0xFFFFFFFF, 1])
+    struct.pack_into(">II", jsb, 0x18, seq, jimg.first)
+    inc = struct.unpack_from(">I", jsb, 0x28)[0] | INCOMPAT_FC
+    struct.pack_into(">I", jsb, 0x28, inc)
+    if inc & (INCOMPAT_CSUM2 | INCOMPAT_CSUM3):
+        jsb[0xFC:0x100] = b"\0\0\0\0"
+        struct.pack_into(">I", jsb, 0xFC, extfmt.crc32c(0xFFFFFFFF, bytes(jsb)))
+    d[jimg.map[0] * bs:jimg.map[0] * bs + 1024] = jsb
+    d[jimg.map[jimg.first] * bs:(jimg.map[jimg.first] + 1) * bs] = b"\0" * bs          # an empty main log
+    blk = bytearray(bs)
+    struct.pack_into("<HHII", blk, 0, 9, 8, 0, seq)                                     # head tag: features 0, expected tid
+    o = 12
+    tag = lambda off, t, ln: struct.pack_into("<HH", blk, off, t, ln)
+    if which == "pad_len_huge":
+        tag(o, 7, bs - 8 - o - 4)
+        tag(bs - 8, 7, r.choice([0xFFF0, bs, 0x7FFF, 5]))
+    elif which == "tag_at_block_end":
+        tag(o, 7, bs - 4 - o - 4)
+        tag(bs - 4, r.choice([1, 6, 8, 9]), r.choice([16, 0, 0xFFFF]))
+    elif which == "add_range_short":
+        tag(o, 7, bs - 6 - o - 4)
+        tag(bs - 6, 1, 2)
+    elif which == "inode_len_huge":
+        tag(o, 6, r.choice([0xFFFF, bs - o, 3]))
+    elif which == "header_cut":
+        tag(o, 7, bs - 2 - o - 4)
+        blk[bs - 2:bs] = b"\x07\x00"
+    else:
+        while o + 4 < bs:
+            ln = r.choice([0, 4, 16, 20, 60, 300, 0xFFFF, bs])
+            tag(o, r.choice([1, 2, 3, 4, 5, 6, 7, 8, 9, 77]), ln)
+            o += 4 + min(ln, 400)
+    for k in (jimg.maxlen - num_fc, jimg.maxlen - num_fc + 1):
+        if k in jimg.map:
+            d[jimg.map[k] * bs:(jimg.map[k] + 1) * bs] = blk
+    sb = bytearray(d[1024:2048])
+    struct.pack_into("<I", sb, 0x60, struct.unpack_from("<I", sb, 0x60)[0] | 4)           # needs_recovery
+    if fs.has_csum:
+        struct.pack_into("<I", sb, 0x3FC, extfmt.crc32c(0xFFFFFFFF, bytes(sb[:0x3FC])))
+    d[1024:2048] = sb
+    img = os.path.join(WORK, "fc_%d.img" % idx)
+    env = e2v.tool_env(src)
+    T = lambda p_: os.path.join(asan, p_)
+    bad, nrun = [], 0
+    for label, cmd in (("e2fsck -fy journal", [T("e2fsck/e2fsck"), "-fy", img]), ("debugfs logdump", [T("debugfs/debugfs"), "-R", "logdump -a", img]),
+                       ("debugfs jr", [T("debugfs/debugfs"), "-w", "-R", "jr", img])):
+        open(img, "wb").write(d)
+        rc, why = run_san(cmd, env)
+        nrun += 1
+        if why:
+            bad.append({"invocation": label, "why": why})
+    os.unlink(img)
+    return {"kind": "journal", "base": bname, "journal": "fast commit", "note": "fast-commit block: head tag, then %s" % which, "damage": [], "case_index": idx}, bad, nrun
+
+
 def journal_case(src, asan, idx, seed, tier):
     """journals with damaged blocks, and the log that consists of descriptor blocks only"""
+    if idx % 8 == 5:
+        return fast_commit_case(src, asan, idx, seed, tier)
     r = e2v.rng(seed, "c06j", idx)
     name, opts, size = c03.BASES[0 if idx % 8 == 7 else idx % 2]
     jimg = c03.JImage(c03.base_image(src, name, opts, size))
@@ -502,14 +574,15 @@ def run(res, replay=None):
     ]
     res.cov["partial"] = ["this property is about the C runtime: proved is only the bounds logic of three parsers (directory record walk, journal tag counting, attribute value bounds), the termination of e2fsck's relocate-and-restart protocol and e2image's inode-table length; memory safety of the code is observed by sanitizers on the sampled inputs, not proved",
                           "mounted filesystems, block devices and 64k-block directories are outside the campaign"]
-    for nm, op, sz in c03.BASES[:2]:
+    for nm, op, sz in c03.BASES[:2] + [("fc4k", ["-t", "ext4", "-b", "4096", "-O", "fast_commit", "-J", "size=4"], "64M"),
+                                       ("fc1k", ["-t", "ext4", "-b", "1024", "-O", "fast_commit,^metadata_csum", "-J", "size=4"], "32M")]:
         c03.base_image(src, nm, op, sz)
     for nm, op, sz in corrupt.IMG_CONFIGS:
         corrupt.build_image(src, WORK, nm, op, sz, 1)
     rows, dbad = dirwalk_corr(src, hexe, mexe, seed, 40 if tier == "quick" else 2000)
     erows, ebad = ea_value_corr(src, mexe, seed, 6 if tier == "quick" else 150)
     rrows, rbad = robust_corr(src, mexe, seed, tier)
-    n_img, n_j, n_a = (100, 16, 20) if tier == "quick" else (4000, 1500, 800)
+    n_img, n_j, n_a = (100, 48, 20) if tier == "quick" else (4000, 1500, 800)
     with concurrent.futures.ThreadPoolExecutor(14) as ex:
         o1 = list(ex.map(lambda i: image_case(src, asan, i, seed, tier), range(n_img)))
         o2 = list(ex.map(lambda i: journal_case(src, asan, i, seed, tier), range(n_j)))
